@@ -202,6 +202,14 @@ def run_evaluate(ctx: Ctx) -> None:
                 tr = it.call(fE, c, stride=st_x if D > 1 else st_x[0], shape=tuple(nout), transpose=True)
                 if not teq(tr, want):
                     return False, "transposed-convolution algorithm disagrees with the analytic evaluation"
+            # the transposed algorithm with explicitly supplied 1-D kernels (documented form) for every derivative order
+            if all(v <= 2 for v in deriv):  # (cubic_bspline1d tabulates the basis and its first two derivatives)
+                fK = prog.func("deepali.core.kernels", "cubic_bspline1d")
+                kern = [it.call(fK, s_, derivative=d_) for s_, d_ in zip(st_x, dv_x)]
+                trk = it.call(fE, c, stride=st_x if D > 1 else st_x[0], shape=tuple(nout), kernel=kern, transpose=True)
+                if tuple(trk.shape) != tuple(want.shape) or not teq(trk, want):
+                    return False, (f"transposed convolution with the kernels cubic_bspline1d(stride, derivative={dv_x}) disagrees with the "
+                                   f"analytic evaluation of that derivative")
             return True, ""
         _guard(ctx, "T3.evaluate", f"c={cshape}:s={stride}:d={deriv}", fE, f"coefficients={cshape} stride={stride} derivative={deriv}", th)
     # linear precision with symbolic slope/intercept
